@@ -611,6 +611,45 @@ func runC09() {
 		}
 	}
 
+	// ---- (4) an operator with SEVERAL candidate functions that all fit the operands through interface-typed parameters:
+	//      identical Compile calls choose the same one (and produce the same program and result)
+	{
+		env := C09OpEnv{A: C09Str("a"), B: C09Str("b")}
+		for _, fns := range [][]string{{"JoinA", "JoinB", "JoinC", "JoinD"}, {"JoinD", "JoinC", "JoinB", "JoinA"}, {"JoinB", "JoinD"}} {
+			seen := map[string]int{}
+			for k := 0; k < 60; k++ {
+				rep.Evaluations++
+				rep.hist("operator with several fitting candidates")
+				out := "?"
+				func() {
+					defer func() {
+						if r := recover(); r != nil {
+							out = fmt.Sprintf("panic: %v", r)
+						}
+					}()
+					p, err := expr.Compile("[A + B, A + A, B + A]", expr.Env(env), expr.Operator("+", fns...))
+					if err != nil {
+						out = "compile error: " + err.Error()
+						return
+					}
+					v, err := expr.Run(p, env)
+					out = fmt.Sprintf("%s => %v / %v", cqProgram(p), v, err)
+				}()
+				seen[out]++
+			}
+			if len(seen) > 1 {
+				var ms []string
+				for m := range seen {
+					ms = append(ms, m)
+				}
+				sort.Strings(ms)
+				rep.fail(Failure{Key: "C09-compile-nondeterministic", What: "identical Compile calls with an operator that has several fitting candidate functions choose different functions",
+					Input: map[string]interface{}{"src": "[A + B, A + A, B + A]", "operator": "+", "functions": fns, "env": "C09OpEnv"},
+					Want:  "one program and one result", Got: clip(fmt.Sprintf("%d different outcomes, e.g. %s AND %s", len(ms), ms[0], ms[1])), Replay: `{"what": "operator-candidates"}`})
+			}
+		}
+	}
+
 	// ---- (1b) the fresh processes
 	for k, ch := range children {
 		err := ch.cmd.Wait()
@@ -669,3 +708,15 @@ func runC09() {
 	rep.Rule = "cases = (fixed sources covering every constant kind and every allocating opcode + a shuffled sample (quick) / all (thorough) of the exhaustive shape family + type-directed random expressions) x option sets {untyped, untyped+opt, typed, typed+opt on every source; AsInt64, AsBool, map environment, map environment + AllowUndefinedVariables, operator overloading + ConstExpr, the struct VALUE as sample environment with and without AllowUndefinedVariables on a rotating third and on every source that calls a method}; each compiled 5x in-process and once in each of 2 fresh processes that compile the cases in REVERSED order and in SHUFFLED order with the value-environment cases first (digest of Bytecode+Constants+Locations or the error text); every distinct program run on 5 (quick) / 8 (thorough) environments with deep structure (one with unsorted slices that have spare capacity, multi-entry maps, shared pointers), twice on the same value and once on an equal twin, with deep snapshots of environment, sample environment and program around every run; distinct_nontrivial = successfully compiled (source, option set) pairs + distinct (program, environment) pairs run"
 	rep.write()
 }
+
+// an environment whose operator candidates fit only through interface-typed parameters
+type C09Str string
+
+func (s C09Str) String() string { return string(s) }
+
+type C09OpEnv struct{ A, B C09Str }
+
+func (C09OpEnv) JoinA(a, b fmt.Stringer) string             { return "A:" + a.String() + b.String() }
+func (C09OpEnv) JoinB(a, b interface{}) string              { return fmt.Sprintf("B:%v%v", a, b) }
+func (C09OpEnv) JoinC(a fmt.Stringer, b interface{}) string { return fmt.Sprintf("C:%v%v", a, b) }
+func (C09OpEnv) JoinD(a interface{}, b fmt.Stringer) string { return fmt.Sprintf("D:%v%v", a, b) }
